@@ -720,6 +720,21 @@ func genC06(e *emitter, tier string, seed int64) {
 			}
 		}
 	}
+	// 1a. nesting depth: redundant parentheses, nested calls, list and map literals, blocks - n deep, n up
+	// to 300 (the tree has exactly n nested nodes; no depth is special)
+	for _, n := range []int{1, 2, 64, 127, 128, 129, 130, 200, 300} {
+		var t T = id("x")
+		for i := 0; i < n; i++ {
+			t = T{"t": "paren", "e": t}
+		}
+		parseCase(e, printProg(rng, []any{t}, "canon"), []any{t}, "depth", "canon")
+		parseCase(e, printProg(rng, []any{t}, "eol"), []any{t}, "depth", "eol")
+		parseCase(e, "f("+strings.Repeat("f(", n-1)+"1"+strings.Repeat(")", n)+"\n", nil, "depth", "calls")
+		parseCase(e, strings.Repeat("[", n)+"1"+strings.Repeat("]", n)+"\n", nil, "depth", "lists")
+		parseCase(e, "x = "+strings.Repeat("{\"k\": ", n)+"1"+strings.Repeat("}", n)+"\n", nil, "depth", "maps")
+		parseCase(e, strings.Repeat("if a {\n", n)+"x = 1\n"+strings.Repeat("}\n", n), nil, "depth", "blocks")
+		parseCase(e, "x = a"+strings.Repeat("[b", n)+strings.Repeat("]", n)+"\n", nil, "depth", "index")
+	}
 	// 1b. the language reference's own examples (01-syntax-spec.md, "Binary Expression", "Parenthesized Expression")
 	num := func(v string) T { return T{"t": "num", "neg": false, "v": hx(v)} }
 	bin := func(op string, l, r T) T { return T{"t": "bin", "op": op, "l": l, "r": r} }
